@@ -1,12 +1,329 @@
-//! Extension module (Tier A): owner fills in. Output: coq/gen/ProofChkFacts.v
-//! Contract: return (text of the .v file, report lines). Each report line is one JSON object
-//! {"item":"ProofChkFacts.<name>","file":"<rust file>","ok":true|false[,"error":"..."]}.
-//! Fail closed: when a site is not recognised, OMIT the Gallina definition (so dependent proofs stop
-//! compiling) and push an ok:false report line.
+//! Extension module (Tier A) for C12. Output: coq/gen/ProofChkFacts.v
+//!
+//! Regenerates, from the proof checker's source, the DISPATCH TABLES the Gallina checker
+//! (coq/ProofChk/Checker.v) re-implements by hand:
+//!   * `justification_kinds`  src/proofs/proof_format.rs   variants (+ field names) of `enum Justification`
+//!   * `checker_arms`         src/proofs/proof_checker.rs  arms of `match &proof.justification` in
+//!                            `ProofStore::check_proof_with_context`
+//!   * `action_arms`          src/proofs/proof_checker.rs  arms of `match action` in `process_actions`
+//!   * `fact_arms`            src/proofs/proof_checker.rs  arms of `match fact` in
+//!                            `check_fact_matches_proposition`
+//!   * `ctx_new_errs`         src/proofs/proof_checker.rs  error kinds `ProofCheckContext::new` can raise
+//!   * `run_merge_shape`      src/proofs/proof_checker.rs  error kinds / comparisons / calls of `run_merge`
+//! Per match arm: the pattern, the guard, the number of recursive `check_proof_with_context` calls
+//! (outside / inside a loop), the `ProofCheckErrorKind::X` it can raise (source order), every `==` /
+//! `!=` comparison (source order, both operands as text), and the helper calls (`self.f`, `ctx.f`,
+//! lower-case free functions, `.contains` / `.insert` / `.extend` with their receiver).
+//!
+//! Contract: return (text of the .v file, report lines). Fail closed: when a site is not
+//! recognised, OMIT the Gallina definition and push an ok:false report line.
+use quote::ToTokens;
+use std::path::Path;
+use syn::visit::Visit;
 
-pub fn generate(_repo: &std::path::Path) -> (String, Vec<String>) {
-    (
-        "(* GENERATED by /verif/translator (x_proofchk.rs): nothing extracted yet *)\n".to_string(),
-        Vec::new(),
+fn toks<T: ToTokens>(t: &T) -> String {
+    let s = t.to_token_stream().to_string();
+    // token streams print with spaces between tokens; drop them except inside string literals
+    let mut out = String::new();
+    let mut in_str = false;
+    let mut prev = ' ';
+    for c in s.chars() {
+        if c == '"' && prev != '\\' {
+            in_str = !in_str;
+        }
+        if c.is_whitespace() && !in_str {
+            prev = c;
+            continue;
+        }
+        out.push(c);
+        prev = c;
+    }
+    out
+}
+
+fn coq_str(s: &str) -> String {
+    format!("\"{}\"", s.replace('"', "\"\""))
+}
+
+fn coq_str_list(v: &[String]) -> String {
+    format!("[{}]", v.iter().map(|s| coq_str(s)).collect::<Vec<_>>().join("; "))
+}
+
+fn find_fn(file: &syn::File, name: &str, nth: usize) -> Option<syn::Block> {
+    struct F<'n> {
+        name: &'n str,
+        found: Vec<syn::Block>,
+    }
+    impl<'ast, 'n> Visit<'ast> for F<'n> {
+        fn visit_impl_item_fn(&mut self, f: &'ast syn::ImplItemFn) {
+            if f.sig.ident == self.name {
+                self.found.push(f.block.clone());
+            }
+            syn::visit::visit_impl_item_fn(self, f);
+        }
+        fn visit_item_fn(&mut self, f: &'ast syn::ItemFn) {
+            if f.sig.ident == self.name {
+                self.found.push((*f.block).clone());
+            }
+            syn::visit::visit_item_fn(self, f);
+        }
+    }
+    let mut v = F { name, found: vec![] };
+    v.visit_file(file);
+    v.found.into_iter().nth(nth)
+}
+
+/// the method `name` inside `impl <ty>`
+fn find_impl_fn(file: &syn::File, ty: &str, name: &str) -> Option<syn::Block> {
+    for it in &file.items {
+        if let syn::Item::Impl(im) = it {
+            if im.trait_.is_none() && toks(&*im.self_ty) == ty {
+                for ii in &im.items {
+                    if let syn::ImplItem::Fn(f) = ii {
+                        if f.sig.ident == name {
+                            return Some(f.block.clone());
+                        }
+                    }
+                }
+            }
+        }
+    }
+    None
+}
+
+fn find_match(block: &syn::Block, scrutinee: &str) -> Option<syn::ExprMatch> {
+    struct M<'n> {
+        scrutinee: &'n str,
+        found: Option<syn::ExprMatch>,
+    }
+    impl<'ast, 'n> Visit<'ast> for M<'n> {
+        fn visit_expr_match(&mut self, m: &'ast syn::ExprMatch) {
+            if self.found.is_none() && toks(&*m.expr) == self.scrutinee {
+                self.found = Some(m.clone());
+                return;
+            }
+            syn::visit::visit_expr_match(self, m);
+        }
+    }
+    let mut v = M { scrutinee, found: None };
+    v.visit_block(block);
+    v.found
+}
+
+#[derive(Default, Debug)]
+struct Shape {
+    rec: usize,
+    rec_loop: usize,
+    errs: Vec<String>,
+    cmps: Vec<(String, String, String)>,
+    calls: Vec<String>,
+    loop_depth: usize,
+}
+
+impl<'ast> Visit<'ast> for Shape {
+    fn visit_expr_for_loop(&mut self, e: &'ast syn::ExprForLoop) {
+        self.visit_expr(&e.expr);
+        self.loop_depth += 1;
+        self.visit_block(&e.body);
+        self.loop_depth -= 1;
+    }
+    fn visit_expr_while(&mut self, e: &'ast syn::ExprWhile) {
+        self.loop_depth += 1;
+        syn::visit::visit_expr_while(self, e);
+        self.loop_depth -= 1;
+    }
+    fn visit_expr_loop(&mut self, e: &'ast syn::ExprLoop) {
+        self.loop_depth += 1;
+        syn::visit::visit_expr_loop(self, e);
+        self.loop_depth -= 1;
+    }
+    fn visit_expr_method_call(&mut self, e: &'ast syn::ExprMethodCall) {
+        let recv = toks(&*e.receiver);
+        let name = e.method.to_string();
+        if name == "check_proof_with_context" {
+            if self.loop_depth > 0 {
+                self.rec_loop += 1;
+            } else {
+                self.rec += 1;
+            }
+        } else if recv == "self" || recv == "ctx" {
+            self.calls.push(format!("{recv}.{name}"));
+        } else if name == "contains" || name == "insert" || name == "extend" {
+            self.calls.push(format!("{recv}.{name}"));
+        }
+        syn::visit::visit_expr_method_call(self, e);
+    }
+    fn visit_expr_call(&mut self, e: &'ast syn::ExprCall) {
+        if let syn::Expr::Path(p) = &*e.func {
+            if p.path.segments.len() == 1 {
+                let n = p.path.segments[0].ident.to_string();
+                // format_term / format_substitution only build error messages
+                if n.chars().next().map(|c| c.is_lowercase()).unwrap_or(false) && !n.starts_with("format") {
+                    self.calls.push(n);
+                }
+            }
+        }
+        syn::visit::visit_expr_call(self, e);
+    }
+    fn visit_path(&mut self, p: &'ast syn::Path) {
+        let segs: Vec<String> = p.segments.iter().map(|s| s.ident.to_string()).collect();
+        if segs.len() == 2 && segs[0] == "ProofCheckErrorKind" {
+            self.errs.push(segs[1].clone());
+        }
+        syn::visit::visit_path(self, p);
+    }
+    fn visit_expr_binary(&mut self, e: &'ast syn::ExprBinary) {
+        let op = match e.op {
+            syn::BinOp::Eq(_) => Some("=="),
+            syn::BinOp::Ne(_) => Some("!="),
+            syn::BinOp::Ge(_) => Some(">="),
+            syn::BinOp::Gt(_) => Some(">"),
+            syn::BinOp::Le(_) => Some("<="),
+            syn::BinOp::Lt(_) => Some("<"),
+            _ => None,
+        };
+        if let Some(op) = op {
+            self.cmps.push((op.to_string(), toks(&*e.left), toks(&*e.right)));
+        }
+        syn::visit::visit_expr_binary(self, e);
+    }
+    fn visit_macro(&mut self, m: &'ast syn::Macro) {
+        let name = m.path.segments.last().map(|s| s.ident.to_string()).unwrap_or_default();
+        if name == "matches" {
+            self.cmps.push(("matches".to_string(), toks(&m.tokens), String::new()));
+        } else if name == "panic" || name == "unreachable" || name == "todo" || name == "unimplemented" {
+            self.calls.push(format!("{name}!"));
+        }
+    }
+}
+
+fn shape_record(pat: &str, guard: &str, s: &Shape) -> String {
+    let cmps: Vec<String> = s.cmps.iter().map(|(o, l, r)| format!("({}, {}, {})", coq_str(o), coq_str(l), coq_str(r))).collect();
+    format!(
+        "  mkArm {} {} {} {}\n    {}\n    [{}]\n    {}",
+        coq_str(pat),
+        coq_str(guard),
+        s.rec,
+        s.rec_loop,
+        coq_str_list(&s.errs),
+        cmps.join("; "),
+        coq_str_list(&s.calls)
     )
+}
+
+fn arms_of(file: &syn::File, owner: Option<&str>, func: &str, nth: usize, scrutinee: &str, def: &str) -> Result<String, String> {
+    let body = match owner {
+        Some(ty) => find_impl_fn(file, ty, func).ok_or(format!("method {ty}::{func} not found"))?,
+        None => find_fn(file, func, nth).ok_or(format!("fn {func} not found"))?,
+    };
+    let m = find_match(&body, scrutinee).ok_or(format!("`match {scrutinee}` not found in {func}"))?;
+    if m.arms.is_empty() {
+        return Err(format!("`match {scrutinee}` in {func} has no arms"));
+    }
+    let mut recs = Vec::new();
+    for arm in &m.arms {
+        if matches!(arm.pat, syn::Pat::Wild(_)) {
+            return Err(format!("`match {scrutinee}` in {func} has a wildcard arm: the dispatch is no longer explicit"));
+        }
+        let mut s = Shape::default();
+        if let Some((_, g)) = &arm.guard {
+            s.visit_expr(g);
+        }
+        s.visit_expr(&arm.body);
+        let guard = arm.guard.as_ref().map(|(_, g)| toks(&**g)).unwrap_or_default();
+        recs.push(shape_record(&toks(&arm.pat), &guard, &s));
+    }
+    Ok(format!(
+        "(* src/proofs/proof_checker.rs {func}: arms of `match {scrutinee}` *)\nDefinition {def} : list arm := [\n{}\n].\n",
+        recs.join(";\n")
+    ))
+}
+
+fn fn_shape(file: &syn::File, owner: Option<&str>, func: &str, def: &str) -> Result<String, String> {
+    let body = match owner {
+        Some(ty) => find_impl_fn(file, ty, func).ok_or(format!("method {ty}::{func} not found"))?,
+        None => find_fn(file, func, 0).ok_or(format!("fn {func} not found"))?,
+    };
+    let mut s = Shape::default();
+    s.visit_block(&body);
+    Ok(format!(
+        "(* src/proofs/proof_checker.rs {func}: whole body *)\nDefinition {def} : arm :=\n{}.\n",
+        shape_record(func, "", &s)
+    ))
+}
+
+fn justification_kinds(file: &syn::File) -> Result<String, String> {
+    for it in &file.items {
+        if let syn::Item::Enum(e) = it {
+            if e.ident == "Justification" {
+                let mut rows = Vec::new();
+                for v in &e.variants {
+                    let fields: Vec<String> = match &v.fields {
+                        syn::Fields::Unit => vec![],
+                        syn::Fields::Named(n) => n.named.iter().map(|f| format!("{}:{}", f.ident.as_ref().unwrap(), toks(&f.ty))).collect(),
+                        syn::Fields::Unnamed(u) => u.unnamed.iter().map(|f| toks(&f.ty)).collect(),
+                    };
+                    rows.push(format!("  ({}, {})", coq_str(&v.ident.to_string()), coq_str_list(&fields)));
+                }
+                if rows.is_empty() {
+                    return Err("enum Justification has no variants".into());
+                }
+                return Ok(format!(
+                    "(* src/proofs/proof_format.rs enum Justification *)\nDefinition justification_kinds : list (string * list string) := [\n{}\n].\n",
+                    rows.join(";\n")
+                ));
+            }
+        }
+    }
+    Err("enum Justification not found".into())
+}
+
+pub fn generate(repo: &Path) -> (String, Vec<String>) {
+    let mut out = String::from(
+        "(* GENERATED by /verif/translator (x_proofchk.rs) from src/proofs/proof_checker.rs and\n   src/proofs/proof_format.rs. Do not edit. *)\nFrom Coq Require Import List String.\nImport ListNotations.\nOpen Scope string_scope.\n\n(** one match arm (or one whole function body) of the proof checker: pattern, guard, number of\n    recursive check_proof_with_context calls outside / inside a loop, the ProofCheckErrorKind it\n    can raise, its comparisons (operator, left, right) and its helper calls, all in source order *)\nRecord arm := mkArm {\n  a_pat : string; a_guard : string; a_rec : nat; a_rec_loop : nat;\n  a_errs : list string; a_cmps : list (string * string * string); a_calls : list string }.\n\n",
+    );
+    let mut report = Vec::new();
+    let mut push = |out: &mut String, item: &str, file: &str, r: Result<String, String>| match r {
+        Ok(t) => {
+            out.push_str(&t);
+            out.push('\n');
+            report.push(format!("{{\"item\":\"ProofChkFacts.{item}\",\"file\":\"{file}\",\"ok\":true}}"));
+        }
+        Err(e) => {
+            out.push_str(&format!("(* {item}: NOT REGENERATED: {} *)\n\n", e.replace("*)", "* )")));
+            report.push(format!(
+                "{{\"item\":\"ProofChkFacts.{item}\",\"file\":\"{file}\",\"ok\":false,\"error\":\"{}\"}}",
+                e.replace('\\', "\\\\").replace('"', "\\\"")
+            ));
+        }
+    };
+
+    let pf = "src/proofs/proof_format.rs";
+    let pc = "src/proofs/proof_checker.rs";
+    let parse = |rel: &str| -> Result<syn::File, String> {
+        let src = std::fs::read_to_string(repo.join(rel)).map_err(|e| format!("{rel}: {e}"))?;
+        syn::parse_file(&src).map_err(|e| format!("{rel}: {e}"))
+    };
+    match parse(pf) {
+        Ok(f) => push(&mut out, "justification_kinds", pf, justification_kinds(&f)),
+        Err(e) => push(&mut out, "justification_kinds", pf, Err(e)),
+    }
+    match parse(pc) {
+        Ok(f) => {
+            push(&mut out, "checker_arms", pc, arms_of(&f, Some("ProofStore"), "check_proof_with_context", 0, "&proof.justification", "checker_arms"));
+            push(&mut out, "action_arms", pc, arms_of(&f, None, "process_actions", 0, "action", "action_arms"));
+            push(&mut out, "fact_arms", pc, arms_of(&f, Some("ProofStore"), "check_fact_matches_proposition", 0, "fact", "fact_arms"));
+            push(&mut out, "eval_props_arms", pc, arms_of(&f, None, "eval_expr_with_subst", 0, "expr", "eval_props_arms"));
+            push(&mut out, "eval_term_arms", pc, arms_of(&f, Some("ProofStore"), "eval_expr_with_subst", 0, "expr", "eval_term_arms"));
+            push(&mut out, "ctx_new_shape", pc, fn_shape(&f, Some("ProofCheckContext"), "new", "ctx_new_shape"));
+            push(&mut out, "run_merge_shape", pc, fn_shape(&f, None, "run_merge", "run_merge_shape"));
+            push(&mut out, "rule_produces_shape", pc, fn_shape(&f, Some("ProofStore"), "check_rule_produces_equality", "rule_produces_shape"));
+        }
+        Err(e) => {
+            for it in ["checker_arms", "action_arms", "fact_arms", "eval_props_arms", "eval_term_arms", "ctx_new_shape", "run_merge_shape", "rule_produces_shape"] {
+                push(&mut out, it, pc, Err(e.clone()));
+            }
+        }
+    }
+    (out, report)
 }
